@@ -188,6 +188,9 @@ fn render_group(
         None,
     );
 
+    #[cfg(resvg_verif)]
+    crate::verif::log(|| "layer_end".to_string());
+
     Some(())
 }
 
